@@ -144,7 +144,7 @@ func init() {
 		deep = "(" + deep + " + 1)"
 	}
 	constructs10["deep_expression"] = strings.ReplaceAll(constructs10["deep_expression"], "{DEEP}", deep)
-	constructs10["like_huge_pattern"] = strings.ReplaceAll(constructs10["like_huge_pattern"], "{PERCENTS}", strings.Repeat("%a", 2000))
+	constructs10["like_huge_pattern"] = strings.ReplaceAll(constructs10["like_huge_pattern"], "{PERCENTS}", strings.Repeat("%a", 400))
 	genql.RegisterFunction("kaboom", func(q *genql.Query, cur genql.Map, fo *genql.FunctionOptions, args []any) (any, error) {
 		panic("kaboom: a user function panics with a value that is not an error")
 	})
